@@ -208,7 +208,14 @@ fn gen(g: &mut G, thorough: bool) -> Plan {
             if status / 100 == 3 || g.chance(1, 6) {
                 w.extend_from_slice(format!("Location: {}\r\n", loc).as_bytes());
             }
-            w.extend_from_slice(b"Content-Length: 2\r\n\r\nhi");
+            // (no draw) the body is two octets of text - or, under a coding label, the first octets of what a
+            // decoder may take for the other coding's magic number, a whole body of one octet
+            match (ce.to_ascii_lowercase().contains("deflate") || ce.to_ascii_lowercase().contains("gzip"), (ct.len() + loc.len()) % 4) {
+                (true, 0) => w.extend_from_slice(b"Content-Length: 1\r\n\r\n\x1f"),
+                (true, 1) => w.extend_from_slice(b"Content-Length: 2\r\n\r\n\x1f\x8b"),
+                (true, 2) => w.extend_from_slice(b"Content-Length: 1\r\n\r\n\x78"),
+                _ => w.extend_from_slice(b"Content-Length: 2\r\n\r\nhi"),
+            }
             desc = format!("interpreted-fields {:?}", short(&w));
             g.probe("hostile-interpreted-header-fields");
             ("interpreted-fields", w)
